@@ -161,6 +161,43 @@ def run(spec):
         teardown_bad = z3.Or(tb)
     viol = {"safe": M.any_bad(), "crash": z3.Or(M.any_bad(), stuck), "live": stuck, "hb": race,
             "teardown": z3.Or(race, teardown_bad, M.any_bad())}[kind]
+    # ---- known roles that a re-run may be asked to exclude, so that a listed finding cannot hide a different violation
+    def mark_cas_ok(k):
+        ti = M.plan[k]
+        t = ths[ti]
+        alts = []
+        for p_ in t.by_id.values():
+            if p_.op["kind"] in ("compare_exchange", "compare_exchange_weak"):
+                newv = M._as64(p_.op["args"][2])
+                newv = z3.substitute(newv, *M.reg_pairs(ti, M.R[k][ti]))
+                alts.append(z3.And(M.pc[k][ti] == p_.id, z3.Extract(63, 32, newv) == 0))
+        return z3.And(M.run[k], M.res_ok[k], z3.Or(alts)) if alts else z3.BoolVal(False)
+
+    def cas_failed(k):
+        ti = M.plan[k]
+        pts = [p_.id for p_ in ths[ti].by_id.values() if p_.op["kind"] in ("compare_exchange", "compare_exchange_weak")]
+        return z3.And(M.run[k], z3.Not(M.res_ok[k]), z3.Or([M.pc[k][ti] == i_ for i_ in pts])) if pts else z3.BoolVal(False)
+
+    excl = []
+    for role in spec.get("exclude", []):
+        if role == "crash_after_mark" and kind == "crash":
+            vch = free[0]
+            k0 = sum(n for (_, n) in chunks[:vch])
+            k1 = k0 + chunks[vch][1]
+            for k in range(k0, k1):
+                last = z3.Not(M.run[k + 1]) if k + 1 < k1 else z3.BoolVal(True)
+                excl.append(z3.And(mark_cas_ok(k), last))
+        elif role == "abandoned_mark":
+            for k in range(K - 1):
+                if M.plan[k + 1] == M.plan[k] and M.chunk_of[k + 1] == M.chunk_of[k]:
+                    excl.append(z3.And(mark_cas_ok(k), cas_failed(k + 1)))
+    if kind == "crash":
+        # the reopened file's cursor lies inside [data_offset, capacity]
+        kc_ = sum(n for (_, n) in chunks[: free[0] + 1])
+        cur_ = z3.Extract(31, 0, M.W[kc_][w.hdr // 8 + 1])
+        viol = z3.Or(viol, z3.ULT(cur_, w.dofs), z3.UGT(cur_, spec["cap"]))
+    if excl:
+        viol = z3.And(viol, z3.Not(z3.Or(excl)))
     res = {"family": spec["name"], "kind": kind, "chunks": chunks, "free_chunks": free, "steps": K, "points": [len(t.points) for t in ths],
            "regs": [sum(t.regs.values()) for t in ths], "encode_s": round(time.time() - t_start, 1), "queries": [], "cex": None,
            "functions": sorted(set(fr[0] for t in ths for p in t.by_id.values() if p.frames for fr in p.frames))}
@@ -324,6 +361,8 @@ def decode_cex(spec, w, ths, M, inv, m, what, dead):
     if what in ("hb", "teardown"):
         cex["witness_byte"] = ev(M.wit).as_long()
     if what == "crash":
+        kc_ = sum(n for (ti_, n) in M.chunks if True and (ti_ in dead or (spec.get("init", "fresh") == "fresh" and ti_ == 0)))
+        cex["cursor_at_crash"] = ev(z3.Extract(31, 0, M.W[kc_][w.hdr // 8 + 1])).as_long()
         vs = [s for s in cex["steps"] if s["thread"] in dead]
         cex["crash_after_steps"] = len(vs)
         if vs:
